@@ -220,7 +220,7 @@ class TimedList(Generic[Item]):
             ``TimedList`` with ``rows`` default
         """
         df = pd.DataFrame(cls._default())
-        return cls(df.loc[df.index.repeat(rows)].reset_index())
+        return cls(df.loc[df.index.repeat(rows)].reset_index(drop=True))
 
     def append(
         self, val: Series | TimedList | pd.Series | pd.DataFrame, sort: bool = False
